@@ -25,6 +25,7 @@ type SMTCtx struct {
 	byName map[string]*Decl
 	n      int
 	apps   map[string][]*OpaqueApp // opaque function name -> applications
+	liteSlice bool
 }
 
 type OpaqueApp struct {
@@ -140,6 +141,9 @@ func (c *SMTCtx) slice(terms ...string) string {
 		}
 	}
 	for _, e := range extras {
+		if c.liteSlice && (strings.Contains(e, "(forall") || strings.Contains(e, "(exists")) {
+			continue
+		}
 		b.WriteString("(assert " + e + ")\n")
 	}
 	return b.String()
@@ -149,13 +153,14 @@ func (c *SMTCtx) slice(terms ...string) string {
 
 type State struct {
 	guard string
+	lite  string // guard without quantified assumptions (fast path, and selector at joins)
 	heap  map[string]string
 	alloc string
 	base  int // keys absent from heap resolve to the symbol of (base, key); base 0 = function entry
 }
 
 func (s *State) clone() *State {
-	n := &State{guard: s.guard, alloc: s.alloc, base: s.base, heap: make(map[string]string, len(s.heap))}
+	n := &State{guard: s.guard, lite: s.lite, alloc: s.alloc, base: s.base, heap: make(map[string]string, len(s.heap))}
 	for k, v := range s.heap {
 		n.heap[k] = v
 	}
@@ -172,6 +177,7 @@ type Obligation struct {
 	Goal    string
 	Expect  string // "unsat" (proof) or "sat" (cover)
 	Query   string
+	QueryLite string
 	Props   []string
 	Result  SolverResult
 	Light   bool
@@ -214,6 +220,8 @@ type FnCtx struct {
 	usedNames map[string]int
 	curClause *Expr
 	baseAlloc map[int]string
+	boundNames []string
+	assertHit map[*Clause]int
 }
 
 type deferRec struct {
@@ -281,6 +289,49 @@ func (fc *FnCtx) assume(st *State, p string) {
 		return
 	}
 	st.guard = fc.smt.defineAlways("g", "Bool", and(st.guard, p))
+	if q := dropQuantified(p); q != "true" {
+		st.lite = fc.smt.defineAlways("gl", "Bool", and(st.liteG(), q))
+	}
+}
+
+func (s *State) liteG() string {
+	if s.lite == "" {
+		return "true"
+	}
+	return s.lite
+}
+
+// dropQuantified removes the top-level conjuncts of p that contain a quantifier.
+func dropQuantified(p string) string {
+	if !strings.Contains(p, "(forall") && !strings.Contains(p, "(exists") {
+		return p
+	}
+	if !strings.HasPrefix(p, "(and ") {
+		return "true"
+	}
+	var parts []string
+	d, start := 0, 5
+	for i := 5; i < len(p)-1; i++ {
+		switch p[i] {
+		case '(':
+			d++
+		case ')':
+			d--
+		case ' ':
+			if d == 0 {
+				parts = append(parts, p[start:i])
+				start = i + 1
+			}
+		}
+	}
+	parts = append(parts, p[start:len(p)-1])
+	var keep []string
+	for _, x := range parts {
+		if x != "" {
+			keep = append(keep, dropQuantified(x))
+		}
+	}
+	return and(keep...)
 }
 
 // ---------------------------------------------------------------------------------------
@@ -391,6 +442,10 @@ func (fc *FnCtx) load(st *State, p PtrV, t types.Type) Val {
 // wellTyped attaches the state-independent representation invariants of slices and strings
 // to values read from the heap (Go's memory safety guarantees them for every stored value).
 func (fc *FnCtx) wellTyped(t types.Type, v Val) Val {
+	if len(fc.boundNames) > 0 {
+		// under a quantifier the value may mention bound variables and cannot be named
+		return v
+	}
 	switch u := t.Underlying().(type) {
 	case *types.Slice:
 		s := v.(SliceV)
